@@ -29,6 +29,8 @@ func init() {
 			"NOT decided: wall-clock slack; a transport Write that blocks; recovery of the next exchange after a stall (value-level).",
 		Assumptions: []string{"context and timer semantics of the standard library", "Channel.Read is non-blocking (it polls the queue), which is checked under C20/non-blocking-empty"},
 		Mutants: []Mutant{
+			{ID: "C05-subscription-zero-options", Desc: "reverse of the fix: establish-subscription sent with zero-value operation options", Rule: "C05/operation-constructed",
+				Edits: []Edit{{File: "driver/netconf/subscription.go", Old: "\tr, err := d.sendRPC(m, op)\n", New: "\t_ = op\n\n\tr, err := d.sendRPC(m, &OperationOptions{})\n"}}},
 			{ID: "C05-no-ctx-case", Desc: "ctx.Done case removed from ReadUntilExplicit", Rule: "C05/loops-cancellable",
 				Edits: []Edit{{File: "channel/read.go", Old: "func (c *Channel) ReadUntilExplicit(ctx context.Context, b []byte) ([]byte, error) {\n\tvar rb []byte\n\n\tfor {\n\t\tselect {\n\t\tcase <-ctx.Done():\n\t\t\treturn nil, ctx.Err()\n\t\tdefault:\n\t\t}\n", New: "func (c *Channel) ReadUntilExplicit(ctx context.Context, b []byte) ([]byte, error) {\n\tvar rb []byte\n\n\t_ = ctx\n\n\tfor {\n"}}},
 			{ID: "C05-gettimeout-zero", Desc: "GetTimeout(0) returns the connection-wide timeout", Rule: "C05/gettimeout-table",
@@ -180,6 +182,8 @@ func runC05(c *Ctx, r *Report) {
 	importFoundation(c, r, "C05", "callbacks")
 	importFoundation(c, r, "C05", "open-cleanup")
 	importFoundation(c, r, "C05", "priv-steps")
+	r.Rule("C05/operation-constructed", "operation options are only built by their package's NewOperation (whose defaults include Timeout -1 = connection-wide): a struct literal elsewhere has Timeout 0 = maximum", 4)
+	checkOperationConstructed(c, r, "C05/operation-constructed")
 	r.Rule("C05/options", "the per-operation timeout option stores exactly the duration it is given (zero and negative values included: 0 means maximum, -1 the connection-wide value) into the channel / NETCONF operation options", 2)
 	{
 		only := map[string]bool{"WithTimeoutOps": true}
@@ -242,8 +246,8 @@ func checkLoopsCancellable(c *Ctx, r *Report) {
 		}
 		loops := condlessLoops(fn)
 		for i, lp := range loops {
-			if lp.Header.Comment == "for.loop" && !loopWaits(c, lp) {
-				// a conditioned loop over data already in memory (or a local file): nothing in it waits for the device
+			if !loopWaits(c, lp) {
+				// a loop over data already in memory (or a local file): nothing in it waits for the device
 				continue
 			}
 			construct := fmt.Sprintf("%s loop#%d", shortFn(fn), i+1)
@@ -291,6 +295,10 @@ func loopWaits(c *Ctx, lp loopInfo) bool {
 				}
 			case *ssa.Call:
 				if o := CalleeObj(x); o != nil && o.Pkg() != nil && o.Pkg().Path() == "time" && o.Name() == "Sleep" {
+					return true
+				}
+				// a read through an interface (net.Conn, io.Reader, a transport implementation)
+				if x.Call.IsInvoke() && (x.Call.Method.Name() == "Read" || x.Call.Method.Name() == "ReadFrom" || x.Call.Method.Name() == "Accept") {
 					return true
 				}
 				if sc := x.Call.StaticCallee(); sc != nil {
@@ -856,6 +864,16 @@ func checkTimeoutClasses(c *Ctx, r *Report) {
 				if call, isCall := st.Chan.(*ssa.Call); isCall {
 					if o := CalleeObj(call); o != nil && o.Name() == "After" {
 						isTimer = true
+					}
+					// the Done channel of a context that carries the operation's deadline
+					if call.Call.IsInvoke() && call.Call.Method.Name() == "Done" && isContextType(call.Call.Value.Type()) {
+						if kind, src := ctxOrigin(call.Call.Value, 0); kind == "with-timeout" {
+							if cc, ok := src.(*ssa.Call); ok {
+								if o := CalleeObj(cc); o != nil && (o.Name() == "WithTimeout" || o.Name() == "WithDeadline") {
+									isTimer = true
+								}
+							}
+						}
 					}
 				}
 				if !isTimer {
